@@ -124,7 +124,7 @@ func main() {
 	// names that are (odd but) single path components and only become traversal names when someone trims them: the plugin
 	// directory must still be exactly <root>/<name>, so sentinels wait where the TRIMMED name would resolve to
 	wrapped := []string{".. ", " ..", "..\n", "\t..\t", " . ", ". ", " ", "\t", " good", "good ", "../evil ", " ../evil"}
-	valid := []string{"good", "bar.example.plugin", "-x", "a_b", "..."}
+	valid := []string{"good", "bar.example.plugin", "-x", "a_b", "...", "absent-plugin", "absent.v2"} // (absent*: nothing of that name is installed under the root)
 	// names in the shape of an executable FILE name (notation-<x>): single components, or traversal names, exactly as
 	// their characters say - nothing may be derived from them by stripping the prefix
 	prefixed := []string{"notation-..", "notation-.", "notation-", "notation-good", "notation-other", "notation-notation-good", "notation-../evil", "notation-../../x", "notation-good/..", "notation-.. "}
@@ -239,7 +239,7 @@ func main() {
 		case "get", "verify":
 			// sentinel wherever the executable path lexically resolves to
 			target := filepath.Join(root, path.Join(c.Name, "notation-"+c.Name))
-			if !strings.Contains(c.Name, "\x00") && inside(jail, target) {
+			if !strings.Contains(c.Name, "\x00") && inside(jail, target) && !strings.HasPrefix(c.Name, "absent") {
 				if st, err := os.Lstat(J(target)); err != nil || st.IsDir() {
 					if err == nil && st.IsDir() {
 						// the resolved path is an existing directory (e.g. the root itself): nothing to plant
@@ -463,6 +463,12 @@ func main() {
 			}
 			if res.OK {
 				r.Event("valid-name-succeeded")
+			}
+			if strings.HasPrefix(c.Name, "absent") && (c.Op == "get" || c.Op == "verify") {
+				r.Event("absent-plugin-cases")
+				if res.OK || len(markers) > 0 {
+					r.Violation(sig("process-executed"), fmt.Sprintf("%s with the name %q, under which nothing is installed in the plugin root: ok=%v, executed %v (executables of that file name wait on the PATH of the process)", c.Op, c.Name, res.OK, markers), wit)
+				}
 			}
 			if c.Op == "get" && c.Name == "good" && (!res.OK || len(markers) != 1) {
 				r.Violation(sig("control-failed"), fmt.Sprintf("control: Get(good) must execute the installed plugin exactly once: ok=%v err=%s markers=%v", res.OK, res.Err, markers), wit)
